@@ -19,6 +19,11 @@ func (m *Message) SkipClassAdRaw(ctx context.Context) error {
 		return fmt.Errorf("failed to read expression count: %w", err)
 	}
 	for i := 0; i < numExprs; i++ {
+		// SkipString treats end-of-message as a terminator, so without this a
+		// peer-supplied count larger than the message would spin.
+		if m.Finished() {
+			return fmt.Errorf("message ended after %d of %d expressions", i, numExprs)
+		}
 		if err := m.SkipString(ctx); err != nil {
 			return fmt.Errorf("failed to skip expression %d (expected %d): %w", i, numExprs, err)
 		}
